@@ -54,7 +54,7 @@ pub fn random_case(r: &mut Rng) -> Case {
   Case {
     src,
     take: 1 + r.below(4),
-    flavor: if r.chance(1, 3) { Flavor::Threads } else { Flavor::Local },
+    flavor: [Flavor::Local, Flavor::Threads, Flavor::Local, Flavor::LocalPool][r.below(4)],
     policy: if r.chance(1, 2) { Policy::Fifo } else { Policy::Any },
     late: r.chance(1, 2),
     seed: r.next(),
@@ -203,6 +203,9 @@ pub fn run(cfg: &Cfg, rep: &mut Report) {
     rep.evaluations += 1;
     let o = observe(&c);
     rep.set("sources_covered", c.src.name());
+    if c.flavor == Flavor::LocalPool {
+      rep.count("runs_on_the_real_LocalPool", 1);
+    }
     if let Ok(obs) = &o {
       rep.events += obs.timed.len() as u64;
       let ticks = obs.timed.iter().filter(|(_, n)| matches!(n, N::Next(_))).count();
